@@ -20,11 +20,13 @@ def obligations(tier):
     for ml in ms:
         for al in als:
             q = ml in (0, 1, 15, 16, 17, 32, 40) and al in (0, 5, 16, 17)
+            if not q and not (al in (0, 1, 5, 15, 16, 17, 33) or ml in (0, 1, 15, 16, 17, 31, 32, 33, 40)):
+                continue    # thorough: every mlen x boundary adlens, every adlen x boundary mlens
             obs.append(Ob("step-m%d-a%d" % (ml, al), "C09/step.c", units=UNITS, stubs=GLUE_STUBS,
                           defs={"MLEN": ml, "ADLEN": al}, unwind=270, timeout=600, tier="quick" if q else "thorough",
                           family="step-lemma",
                           desc="push == documented construction; pull(push(m)) == (m, tag); post-states equal and == spec successor incl. REKEY tag, counter wrap, explicit rekey",
-                          bounds="arbitrary state (key, 32-bit counter, inonce), any tag byte, all message/ad bytes; (mlen, adlen) enumerated: quick 7x4, thorough 41x34"))
+                          bounds="arbitrary state (key, 32-bit counter, inonce), any tag byte, all message/ad bytes; (mlen, adlen) enumerated: quick 7x4, thorough every mlen 0..40 x 7 boundary adlens and every adlen 0..33 x 9 boundary mlens"))
     obs.append(Ob("step-wrap-witness", "C09/step.c", units=UNITS, stubs=GLUE_STUBS,
                   defs={"MLEN": 17, "ADLEN": 5, "WRAP": 1}, unwind=270, timeout=600, family="step-lemma",
                   desc="same step lemma restricted to counter = 0xffffffff without REKEY tag: witness that the automatic-rekey path is reachable and verified",
